@@ -61,6 +61,14 @@ Qed.
 Theorem C01_print_idempotent : forall e, canonical e = true -> ptoks (norm e) = ptoks e.
 Proof. exact print_idempotent. Qed.
 
+
+(** parser outputs are producible trees: two hypotheses of the round trip hold for whatever the
+    model parser returns (the precedence ones are C04's [pratt_invariant]) *)
+Theorem C01_parser_shape : forall d ts t rest,
+  parse_expr d ts = Ok (t, rest) -> shape d t /\ esc_safe t rest.
+Proof. exact parse_expr_shape. Qed.
+Print Assumptions C01_parser_shape.
+
 (** uniqueness of the C04 specification, a corollary of the round trip *)
 Theorem C01_correct_unique : forall f d lv extra t t' ts,
   In (f, d, lv, extra) PrecTables.all_dialects ->
